@@ -6,7 +6,7 @@
     sets (generated coefficients), the table weight is their product.  Stencil points outside
     the grid get index 0 and weight 0; a point whose origin is outside gets an all-zero row. *)
 From Coq Require Import List ZArith QArith Qcanon Lia Bool.
-From Inovesa Require Import Base.FieldKit Base.Float32 Gen.Gen_Coeffs Model.Kick.
+From Inovesa Require Import Base.FieldKit Base.Float32 Gen.Gen_Coeffs Model.Kick Model.RotX.
 Import ListNotations.
 Local Open Scope Z_scope.
 
@@ -36,9 +36,10 @@ Definition rot_x (P : rot_par) (q p : Qc) : Qc :=
 Definition rot_y (P : rot_par) (q p : Qc) : Qc :=
   faddr (fdivr (faddr (fmulr (rp_sin P) q) (fmulr (rp_cos P) p)) (rp_d1 P)) (rp_z1 P).
 
-(** float -> unsigned conversion of the integer part is defined for values > -1 only *)
+(** float -> unsigned conversion of the integer part is defined for values in (-1, 2^32) only *)
 Definition rot_defined (P : rot_par) (q p : Qc) : bool :=
-  (0 <=? Qctrunc (rot_x P q p)) && (0 <=? Qctrunc (rot_y P q p)).
+  (0 <=? Qctrunc (rot_x P q p)) && (Qctrunc (rot_x P q p) <? 2 ^ 32) &&
+  ((0 <=? Qctrunc (rot_y P q p)) && (Qctrunc (rot_y P q p) <? 2 ^ 32)).
 
 (** the [it*it] table entries of one grid point *)
 Definition rot_entries (xs ys it : Z) (P : rot_par) (q p : Qc) : list (Z * Qc) :=
@@ -69,3 +70,27 @@ Definition rot_defined_list (n : Z) (P : rot_par) (ax ay : list Qc) : list bool 
 Definition rot_apply_list (n it : Z) (P : rot_par) (ax ay data : list Qc) : list Qc :=
   flat_map (fun x => map (fun y =>
      rot_apply_cell (rot_entries n n it P (getQ ax x) (getQ ay y)) (getQ data)) (zrange n)) (zrange n).
+
+(** ** the saturation of apply (`_clamp`, cubic interpolation with a precomputed table only): the result is
+    limited by the data at the four centre entries (1,1) (1,2) (2,1) (2,2) of the cell's 4x4 stencil.  As coded the
+    upper limit starts from std::numeric_limits<float>::min() - the smallest positive normal number, not the lowest
+    value - and the lower limit from max(). *)
+Definition rot_centre_slots (it : Z) : list Z := [1 * it + 1; 1 * it + 2; 2 * it + 1; 2 * it + 2].
+Definition rot_centre_samples (it : Z) (E : list (Z * Qc)) (D : Z -> Qc) : list Qc :=
+  map (fun s => D (fst (nth (Z.to_nat s) E (0, 0%Qc)))) (rot_centre_slots it).
+Definition rot_clamp (it : Z) (E : list (Z * Qc)) (D : Z -> Qc) (v : Qc) : Qc :=
+  let smp := rot_centre_samples it E D in
+  let ceil := fold_left rx_max smp rx_flt_min in
+  let flor := fold_left rx_min smp rx_flt_max in
+  rx_max (rx_min ceil v) flor.
+Definition rot_apply_cell_clamped (it : Z) (clamp : bool) (E : list (Z * Qc)) (D : Z -> Qc) : Qc :=
+  let v := rot_apply_cell E D in if clamp then rot_clamp it E D v else v.
+
+(** rectangular front-ends (xs rows, ys columns; the constructor takes the two sizes separately) *)
+Definition rot_table_rect (xs ys it : Z) (P : rot_par) (ax ay : list Qc) : list (Z * Qc) :=
+  flat_map (fun x => flat_map (fun y => rot_entries xs ys it P (getQ ax x) (getQ ay y)) (zrange ys)) (zrange xs).
+Definition rot_defined_rect (xs ys : Z) (P : rot_par) (ax ay : list Qc) : list bool :=
+  flat_map (fun x => map (fun y => rot_defined P (getQ ax x) (getQ ay y)) (zrange ys)) (zrange xs).
+Definition rot_apply_rect (xs ys it : Z) (clamp : bool) (P : rot_par) (ax ay data : list Qc) : list Qc :=
+  flat_map (fun x => map (fun y =>
+     rot_apply_cell_clamped it clamp (rot_entries xs ys it P (getQ ax x) (getQ ay y)) (getQ data)) (zrange ys)) (zrange xs).
